@@ -37,7 +37,11 @@ func (r *recorder) AnnounceNewTransactions(newTxs []*mempool.TxDesc) {
 	r.mu.Unlock()
 }
 func (r *recorder) UpdatePeerHeights(*chainhash.Hash, int32, *peer.Peer) {}
-func (r *recorder) RelayInventory(*wire.InvVect, interface{})           { r.mu.Lock(); r.Relayed++; r.mu.Unlock() }
+func (r *recorder) RelayInventory(*wire.InvVect, interface{}) {
+	r.mu.Lock()
+	r.Relayed++
+	r.mu.Unlock()
+}
 func (r *recorder) TransactionConfirmed(tx *btcutil.Tx) {
 	r.mu.Lock()
 	r.Confirmed = append(r.Confirmed, *tx.Hash())
@@ -48,11 +52,11 @@ func (r *recorder) TransactionConfirmed(tx *btcutil.Tx) {
 // exactly as server.go wires them.
 type Full struct {
 	*Node
-	Pool     *mempool.TxPool
-	Sync     *netsync.SyncManager
-	Gen      *mining.BlkTmplGenerator
-	Notifier *recorder
-	MemPolicy mempool.Policy
+	Pool       *mempool.TxPool
+	Sync       *netsync.SyncManager
+	Gen        *mining.BlkTmplGenerator
+	Notifier   *recorder
+	MemPolicy  mempool.Policy
 	MinePolicy mining.Policy
 }
 
